@@ -25,6 +25,27 @@ func checkC05(w *World, r *Report) {
 	c05Tables(w, r)
 	c05Precedence(w, r, exp)
 	c05KeyValidation(w, r)
+	// the assertions in force for a rule: what the rule does not set is inherited from the
+	// prototype (shared with C17.3b, restricted to the authenticators validating tokens)
+	var jwtTypes []*types.Named
+	for _, t := range mechanismTypes(w) {
+		if fn := w.Method(t, "WithConfig"); fn != nil && fn.Blocks != nil {
+			uses := false
+			eachInstr(fn, func(in ssa.Instruction) {
+				if v, ok := in.(ssa.Value); ok && derefNamed(v.Type()) == exp {
+					uses = true
+				}
+			})
+			if uses {
+				jwtTypes = append(jwtTypes, t)
+			}
+		}
+	}
+	noDefaultsInOverride(w, r, jwtTypes, "C05.7", 1, "rule-level assertions inherit from the prototype what they do not set: the decoded override is not filled up with built-in defaults before it is merged")
+	// key sets are fetched through the HTTP response cache: its key must tell issuers apart
+	if ci := w.Named("internal/cache", "Cache"); ci != nil {
+		httpCacheKey(w, r, ci, "C05.8", "a key set cached for one endpoint is never served for another: the key of the HTTP response cache covers the absolute URL (host, path, query), the method and the credential")
+	}
 }
 
 func isJWTClaimsCall(c *ssa.CallCommon) bool {
